@@ -392,3 +392,25 @@ CONF = {"VERIFY": (["C09"], "set_verify for all 2^4 (role, auth, check_crl, chec
         "INHERIT": (["C09", "C11", "C18"], "inherit_tls_conf: all five policy switches, the expected names and the four credential items of the server socket are taken over by an accepted connection")}
 for op, (props, d) in CONF.items():
     ob("tlsconf." + op.lower(), "btls/conf.c", ["-DOP_" + op], props, unwind=10, unwindset=["memset.0:1400", "ut_calloc.0:18", "ut_realloc.0:34"], desc=d)
+
+# --------------------------------------------------------------------------
+# C20: xcmrelay (xrelay.c, rserver.c) over an XCM-API contract mock and a libevent mock
+# --------------------------------------------------------------------------
+RL_INC = ["tools/xcmrelay", "tools/common"]
+RL_FP = ["xfwd_handle_term.function_pointer_call.1/err_cb", "xfwd_handle_err.function_pointer_call.1/err_cb"]
+RL_SC = [("tools/xcmrelay/xrelay.h", r"re:^(\s*char data\[)(65535)\];", 16), ("tools/xcmrelay/xrelay.c", None, None)]
+for v, vn in (([], "messaging"), (["-DBYTESTREAM"], "bytestream")):
+    ob("relay.fire." + vn, "relay/relay_h.c", ["-DOP_FIRE", "-DUT_STD_ASSERT"] + v, ["C20"], unwind=10, inc=RL_INC, scaled=RL_SC, restrict_fp=RL_FP,
+       desc="one xfwd_active firing (either descriptor) from an arbitrary valid forwarder state, %s legs: held data offered unmodified and whole, partial acceptance keeps the tail in order, refused sends keep the data, each direction touches only its own condition bits, one XCM call per firing on the socket that fired [scaled twin: data[65535] -> data[16]]" % vn)
+ob("relay.fire.messaging.realsize", "relay/relay_h.c", ["-DOP_FIRE", "-DUT_STD_ASSERT"], ["C20"], unwind=10, inc=RL_INC, tier="thorough", timeout=2400, restrict_fp=RL_FP,
+   desc="the same with the real 65535-byte buffer")
+ob("relay.start", "relay/relay_h.c", ["-DOP_START", "-DUT_STD_ASSERT"], ["C20"], unwind=10, inc=RL_INC, scaled=RL_SC, desc="xfwd_start: both legs non-blocking, both descriptors watched for readability, interest invariant established")
+RS_SC = RL_SC + [("tools/xcmrelay/rserver.c", None, None)]
+RS_FP = ["xfwd_handle_term.function_pointer_call.1/xrelay_fwd_term", "xfwd_handle_err.function_pointer_call.1/xrelay_fwd_term", "xrelay_fwd_term.function_pointer_call.1/rserver_terminate_relay"]
+ob("relay.accept", "relay/relay_h.c", ["-DOP_ACCEPT", "-DUT_STD_ASSERT"], ["C20"], unwind=10, unwindset=["strcmp.0:16"], inc=RL_INC, scaled=RS_SC, restrict_fp=RS_FP,
+   desc="rserver_create + rserver_accept: server socket and onward connection are non-blocking; failure to reach the target closes the accepted client only")
+ob("relay.term", "relay/relay_h.c", ["-DOP_TERM", "-DUT_STD_ASSERT"], ["C20"], unwind=10, unwindset=["strcmp.0:16"], inc=RL_INC, scaled=RS_SC, restrict_fp=RS_FP,
+   desc="termination of a pair when one side closes: teardown complete; close ordering with respect to data still buffered towards the other side")
+PROPERTY_META["C20"] = {"assumptions": ["XCM-API contract mock per xcm.h: xcm_send accepts (0 / 1..len) or refuses (EAGAIN) or fails (EPIPE, ECONNRESET); xcm_receive returns one message, 0 or -1; the library below the API is what C01..C19 decide",
+                                        "libevent mock (event_assign/add/del record their arguments)", "content tier: messages of <= 6 bytes; scaled twin: the forwarder's buffer is 16 bytes"],
+                        "trusted_base": [], "bounds": "one callback firing from an arbitrary valid state", "outside": "libevent itself; main.c; several concurrent relays share nothing but the rserver list"}
